@@ -345,6 +345,23 @@ def gen_C04(tier, rng):
         else:
             ins.append(("op", rng.choice(EW_OPS), [0, 1]))
             cases.append(case("ew_random", ins, "random:refuse"))
+    # a shorter operand with unit dimensions behind non-unit ones against a rank 5-6 operand whose FIRST dimensions
+    # happen to repeat the shorter operand's (the alignment is from the right, never from the left)
+    for k4 in range(80 if tier == "quick" else 800):
+        sr = rng.randint(2, 3)
+        short = [rng.choice([1, 2, 3]) for _ in range(sr)]
+        if all(d_ == 1 for d_ in short[:-1]):
+            short[0] = 2
+        tail_ = [d_ if d_ != 1 or rng.random() < 0.3 else rng.randint(2, 3) for d_ in short]
+        extra_ = [rng.randint(1, 3) for _ in range(rng.randint(0, 1))]
+        longd = short[:sr - 1] + extra_ + tail_ if rng.random() < 0.7 else [rng.randint(1, 3)] + short[:1] + tail_
+        if not bcompat(longd, short) or prod(longd) > 400:
+            continue
+        a = ("leaf", False, longd, [float((7 * i) % 23 - 11) for i in range(prod(longd))])
+        b2 = ("leaf", False, short, [float((5 * i) % 13 + 1) for i in range(prod(short))])
+        ins = [a, b2] if k4 % 2 else [b2, a]
+        ins += [("op", op, [0, 1]) for op in EW_OPS[:3]]
+        cases.append(case("ew_prefix", ins, "leading_dimensions_repeat_the_shorter_operand"))
     # both operands are views of ONE buffer (reshape shares storage; so does a clone) under different dimensions:
     # the result is decided by the dimensions, never by the identity of the storage - and incompatible views are refused
     for s in [[2], [3], [4], [6], [2, 3], [3, 2], [2, 2], [1, 4], [2, 1, 3]]:
@@ -1269,6 +1286,13 @@ def gen_C02(tier, rng):
         df = [count, depth, fr, fc]
         cases.append(single_op_case(rng, ("conv", sr, sc), [(di, rvals(rng, prod(di), True)), (df, rvals(rng, prod(df), True))],
                                     "conv:%s" % ("overlap" if (sr < fr or sc < fc) else "disjoint")))
+    # powf with whole exponents (1, 2, 3) on data that contains exact zeros and negative numbers: d/dx x^p = p x^(p-1),
+    # in particular 1 at x = 0 for p = 1 and 0 there for p >= 2
+    for pexp in (1.0, 2.0, 3.0):
+        for s in ([3], [2, 3], [4]):
+            n = prod(s)
+            vals = [float([0, -2, 3, 0, 1, -1][(i + int(pexp)) % 6]) for i in range(n)]
+            cases.append(single_op_case(rng, ("powf", pexp), [(s, vals)], "powf_whole_exponent_with_zeros"))
     # the derivative of an operation whose two operands are one array under two shapes (views, clones)
     cases += selfview_cases(rng)
     return cases
@@ -2343,6 +2367,38 @@ def gen_C10(tier, rng):
             s["adjudicate"] = [i for i, _ in final]
             cases.append(s)
     cases += flag_dance_cases(rng, 80 if tier == "quick" else 1000)
+    # the gradient an INTERIOR node keeps, cleared between passes through a user handle whose own flags were
+    # switched off after the graph was recorded (untracked() / stop_tracking()): clearing is about the shared
+    # cell, not about the handle's flags
+    for n2 in range(60 if tier == "quick" else 600):
+        d = rng.choice([[2], [3], [2, 2]])
+        nel = prod(d)
+        av, bv = int_vals(nel, rng), int_vals(nel, rng)
+        ins = [("leaf", True, d, av), ("leaf", True, d, bv), ("op", ("mul",), [0, 1])]
+        kind3 = rng.choice(["add", "mul"])
+        ins.append(("op", (kind3,), [2, 0]))
+        how = rng.choice(["untracked", "stop", "clone_untracked", "none"])
+        hm = 2
+        if how in ("untracked", "stop"):
+            ins.append((how, 2))
+        elif how == "clone_untracked":
+            ins += [("clone", 2), ("untracked", len(ins))]
+            hm = len(ins) - 2
+        s1, s2 = int_vals(nel, rng, 1, 3), int_vals(nel, rng, 1, 3)
+        gm = (lambda s_: list(s_)) if kind3 == "add" else (lambda s_: [x * y for x, y in zip(s_, av)])
+        expect = []
+        ins.append(("backward", 3, (d, s1)))
+        ins.append(("grad", hm)); expect.append((len(ins) - 1, d, gm(s1)))
+        clr = rng.choice(["cleargrad", "gradmutnone"])
+        ins.append((clr, hm))
+        ins.append(("grad", hm)); expect.append((len(ins) - 1, d, None))
+        ins.append(("backward", 3, (d, s2)))
+        ins.append(("grad", hm)); expect.append((len(ins) - 1, d, gm(s2)))
+        ins.append(("grad", 2)); expect.append((len(ins) - 1, d, gm(s2)))
+        c = case("clear_interior", ins, "interior_gradient_cleared_through_switched_off_handle:%s" % how)
+        c["expect_at"] = expect
+        c["adjudicate"] = [e[0] for e in expect]
+        cases.append(c)
     # contributions of ONE pass that cancel exactly (a*K and a*(-K), K far above the stored gradient): the pass alone
     # produces exactly zero for the leaf, so the stored gradient of earlier passes must survive it untouched
     for n2 in range(40 if tier == "quick" else 400):
@@ -2940,6 +2996,37 @@ def gen_C12(tier, rng):
             if ill[0]:
                 c["skip_model"] = True
             cases.append(c)
+    # a leaf that holds a gradient is re-bound through the consuming untracked() and tracked() (or the by-reference
+    # toggles): what it holds afterwards, and what later passes add, does not depend on which results or clones of
+    # it are still alive at that moment
+    for n in range(50 if tier == "quick" else 600):
+        d = rng.choice([[2], [3], [2, 2]])
+        nel = prod(d)
+        av, wv, w2 = int_vals(nel, rng), int_vals(nel, rng), int_vals(nel, rng)
+        toggles = rng.choice([("untracked", "tracked"), ("stop", "start"), ("untracked", "start")])
+        for k in range(4):
+            ins = [("leaf", True, d, av), ("leaf", False, d, wv), ("op", ("mul",), [0, 1]), ("backward", 2, None)]
+            if k == 1:
+                ins.append(("drop", 2))                       # the recorded graph is gone before the re-binding
+            elif k == 2:
+                ins += [("clone", 0), ("drop", 2)]            # a user clone survives instead
+            elif k == 3:
+                ins += [("clone", 0), ("drop", len(ins)), ("drop", 2)]
+            ins.append((toggles[0], 0))
+            ins.append(("grad", 0))
+            g1 = len(ins) - 1
+            ins.append((toggles[1], 0))
+            ins += [("leaf", False, d, w2), ("op", ("mul",), [0, len(ins)])]
+            z = len(ins) - 1
+            ins += [("backward", z, None), ("grad", 0)]
+            g2 = len(ins) - 1
+            c = case("rebind", ins, "leaf_rebound_through_flag_calls")
+            c["group"] = 200000 + n
+            c["role"] = "base" if k == 0 else "variant%d" % (k - 1)
+            c["grads_by_leaf"] = {0: g1, 1: g2}
+            c["adjudicate"] = [g1, g2]
+            c["expect_at"] = [(g1, d, list(wv)), (g2, d, [x + y for x, y in zip(wv, w2)])]
+            cases.append(c)
     # gradient arrays are arrays of their own: one taken from a pass and used as a tracked operand of a later,
     # differentiated computation collects a gradient itself - and that must not show up in the gradient arrays of
     # unrelated passes (same dimensions, omitted seeds), which start without any gradient
@@ -3025,7 +3112,7 @@ PROPS["C12"] = {
             "broadcast seeds are judged corgi-against-corgi only); distinct = distinct program text",
     "exhaustive": {"quick": False, "thorough": False},
     "assumptions": [],
-    "post": ["variants_equal"],
+    "post": ["variants_equal", "expected_gradients"],
 }
 
 
@@ -3775,6 +3862,29 @@ def gen_C19(tier, rng):
         c["rtol"] = 2e-4
         c["scale_tol"] = False
         cases.append(c)
+    # matrix products whose rows differ in magnitude by four orders (100 against 0.01), non-integer data: every output
+    # element is judged against sum_k |a_ik b_kj| of ITS OWN terms (32 units of single-precision round-off), not
+    # against the largest value of the case
+    for k in range(60 if tier == "quick" else 800):
+        rows, inner, cols = rng.randint(2, 5), rng.randint(2, 9), rng.randint(1, 4)
+        ta, tb = bool(k & 1), bool(k & 2)
+        scale_r = [rng.choice([100.0, 0.01, 1.0]) for _ in range(rows)]
+        A = [[f32(scale_r[i] * rng.uniform(0.5, 1.5)) for _ in range(inner)] for i in range(rows)]
+        B = [[f32(rng.uniform(0.5, 1.5) * rng.choice([-1.0, 1.0])) for _ in range(cols)] for _ in range(inner)]
+        da = mat_dims(rows, inner, ta)
+        db = mat_dims(inner, cols, tb)
+        flat_a = [A[i][k_] for i in range(rows) for k_ in range(inner)] if not ta else \
+                 [A[i][k_] for k_ in range(inner) for i in range(rows)]
+        flat_b = [B[k_][j] for k_ in range(inner) for j in range(cols)] if not tb else \
+                 [B[k_][j] for j in range(cols) for k_ in range(inner)]
+        ref = [sum(A[i][k_] * B[k_][j] for k_ in range(inner)) for i in range(rows) for j in range(cols)]
+        tol = [32 * 6e-8 * sum(abs(A[i][k_] * B[k_][j]) for k_ in range(inner)) for i in range(rows) for j in range(cols)]
+        ins = [("leaf", False, da, flat_a), ("leaf", False, db, flat_b), ("op", ("matmul", ta, tb), [0, 1])]
+        c = case("mm_scales", ins, "matmul_rows_of_different_magnitude")
+        c["rtol"] = 2e-4
+        c["scale_tol"] = True
+        c["bound_at"] = [(2, [rows, cols], ref, tol)]
+        cases.append(c)
     # tiny magnitudes (1e-25 .. 1e-6, normal binary32 numbers): operations without cancellation, compared with a
     # tolerance RELATIVE to each value (an absolute tolerance would accept any answer here); relu's mask included
     for k in range(80 if tier == "quick" else 1000):
@@ -3798,9 +3908,37 @@ def gen_C19(tier, rng):
     return cases
 
 
+def post_elementwise_bound(cases, rust, model):
+    """on corgi's own (binary32) output: every element within the stated bound of the double-precision value"""
+    fails = []
+    n = 0
+    for i, (c, r) in enumerate(zip(cases, rust)):
+        for (at, dims, ref, tol) in c.get("bound_at", []):
+            if at >= len(r) or isinstance(r[at], str):
+                break
+            n += 1
+            it = r[at][0]
+            vals = list(it[2])
+            if list(it[1][1:]) != list(dims) or len(vals) != len(ref):
+                fails.append({"case": i, "confirmed": True, "reason": "dimensions %s, expected %s" % (it[1][1:], dims)})
+                break
+            bad = [j for j in range(len(ref)) if not abs(vals[j] - ref[j]) <= tol[j]]
+            if bad:
+                j = bad[0]
+                fails.append({"case": i, "confirmed": True,
+                              "reason": "element %d of the product is %r in the single-precision build, %r in double "
+                                        "precision: off by %.3g, allowed %.3g (32 round-off units of the sum of the "
+                                        "magnitudes of its own terms)" % (j, vals[j], ref[j], abs(vals[j] - ref[j]), tol[j])})
+                break
+    return fails, n
+
+
+POST["elementwise_bound"] = post_elementwise_bound
+
 PROPS["C19"] = {
     "gen": gen_C19,
     "f32": True,
+    "post": ["elementwise_bound"],
     "rule": "samples of the C01-C07 programs (quick: 500/600/150/600/400/300/150; thorough: 8x) with every input "
             "rounded to binary32, run against the harness built with --features f32 and compared with the binary64 "
             "model: dimensions, tracking flags and panics exactly (integer-valued programs stay exact below 2^22), "
